@@ -78,6 +78,22 @@ add("C13", "comp_mc", "exploration",
     "For every accepted program of the families, every .ts artifact is parsed as a TypeScript module by swc_ecma_parser, every .json by serde_json, and every relative import is resolved against the generated artifact set.",
     comp_note + " swc is the syntax oracle (no tsc).", "bounded exhaustive program enumeration + TypeScript parser as oracle", "2/C13")
 
+add("C11", "comp_mc", "exploration",
+    "For every accepted program of the families, each (operation text, normalization AST) pair of the entrypoint and of every refetch query is projected to one canonical selection tree (field, ordered arguments with canonical values, inline fragment type, nesting) and compared; concreteType must be a string exactly for object-typed fields.",
+    comp_note, "bounded exhaustive program enumeration + structural comparison of two artifacts", "2/C11")
+add("C14", "comp_mc", "exploration",
+    "For every program of the families (accepted and rejected): repeated compiles in fresh compiler states and every partition of its literals into <= 3 files under 10 file-name assignments (different sort orders, a sub-directory); artifacts byte-identical modulo the source path, diagnostics identical modulo path/position. Process hash seeds are exercised by repetition and per-process workers, not enumerated (stated in the evidence).",
+    comp_note + " The 128-bit hash-seed space is not enumerable.", "exhaustive enumeration of file layouts per program + repetition for hash seeds", "2/C14")
+add("C15", "comp_mc", "exploration",
+    "Metamorphic, exhaustive per accepted base program: every permutation of every selection set, every duplication of one plain server selection under a fresh alias, every extraction of a contiguous variable-free run into a new client field selected at the same place; the entrypoint's operation text, normalization AST and refetch artifacts must be byte-identical to the base.",
+    comp_note, "exhaustive metamorphic variant enumeration on the real compiler", "2/C15")
+add("C17", "comp_mc", "exploration",
+    "Every accepted program P x 6 invalid variants Q (parse error, undefined field, undefined entrypoint, duplicate selection, schema syntax error, new file with undefined parent type) x {fresh batch compile, watch-mode recompile in the same compiler state through update_sources}: the compile must report errors and a snapshot of the artifact directory (paths, bytes, mtimes, directories) must be unchanged.",
+    comp_note, "exhaustive (valid, invalid) program pair enumeration with directory snapshots", "2/C17")
+add("C26", "comp_mc", "exploration",
+    "Every accepted program x {md5, sha256} x {extra info} x {default/custom file name}: every operationId found in any artifact (swc evaluation) is a key of the documents file and equals the configured hash of the recorded text; the recorded text tokenises to the plain build's operation; file keys = referenced ids; every operation of the plain build is persisted.",
+    comp_note, "exhaustive program x configuration enumeration with hash recomputation", "2/C26")
+
 props = [json.loads(l)["id"] for l in open(os.path.join(ROOT, "properties.jsonl"))]
 claimed = {c["property_id"] for c in checks}
 hook_commits = subprocess.run(["git", "-C", "/repo", "log", "--format=%h %s", "cd9f374..HEAD"], capture_output=True, text=True).stdout.splitlines()
@@ -96,7 +112,7 @@ m = {
         {"name": "pico_mc", "path": "/verif/mc/pico_mc", "serves_properties": ["C01", "C02", "C03", "C04"], "kind_free_text": "explicit-state history explorer (seqx) driving the real pico crate against a reference evaluator + ideal incremental engine; pairwise key-space check for #[memo]"},
         {"name": "fs_mc", "path": "/verif/mc/fs_mc", "serves_properties": ["C18", "C19"], "kind_free_text": "explicit-state exploration of artifact-directory sessions and exhaustive fault-point enumeration on the real planner/applier over a real directory in /dev/shm"},
         {"name": "lang_mc", "path": "/verif/mc/lang_mc", "serves_properties": ["C07", "C31", "C32", "C33"], "kind_free_text": "bounded-exhaustive input explorers (grammar-directed token enumeration, text/span enumeration) on the real parser, excerpt renderer, position resolver and signer"},
-        {"name": "comp_mc", "path": "/verif/mc/comp_mc", "serves_properties": ["C08", "C09", "C13"], "kind_free_text": "progx: bounded-exhaustive program enumeration compiled by the real compiler (crash-isolated workers) with per-property oracles (swc TypeScript parser/evaluator, GraphQL validator)"},
+        {"name": "comp_mc", "path": "/verif/mc/comp_mc", "serves_properties": ["C08", "C09", "C11", "C13", "C14", "C15", "C17", "C26"], "kind_free_text": "progx: bounded-exhaustive program enumeration compiled by the real compiler (crash-isolated workers) with per-property oracles (swc TypeScript parser/evaluator, GraphQL validator)"},
         {"name": "intern_mc", "path": "/verif/mc/intern_mc", "serves_properties": ["C05", "C06"], "kind_free_text": "loom models over the real intern crate (cfg shim) + bounded-exhaustive sequential sweep"},
     ],
     "checks": checks,
